@@ -14,7 +14,7 @@ namespace KG.Spec.Match
 open KG KG.Model.Match
 
 def positives (E : List Str) : List Str := E.filter (fun x => !inverted x)
-def negatives (E : List Str) : List Str := (E.filter inverted).map (·.drop 1)
+def negatives (E : List Str) : List Str := (E.filter inverted).map strip
 
 def fieldSpec (optional : Bool) (pos : Str → Bool) (E : List Str) : Bool :=
   if E.contains star then true
